@@ -377,7 +377,10 @@ intLiteral
 	{
 		// remove separator "_"s
 		intStr := strings.Replace($1.Literal, "_", "", -1)
-		n, _ := strconv.ParseInt(intStr, 10, 64)
+		n, err := strconv.ParseInt(intStr, 10, 64)
+		if err != nil {
+			yylex.Error(fmt.Sprintf("invalid int literal %s: %v", $1.Literal, err))
+		}
 		$$ = &ast.IntLiteral{
 			Token: $1.Literal,
 			Value: n,
@@ -390,7 +393,10 @@ intLiteral
 		lit := strings.Replace($1.Literal, "_", "", -1)
 		// remove prefix "0x"
 		intStr := lit[2:]
-		n, _ := strconv.ParseInt(intStr, 16, 64)
+		n, err := strconv.ParseInt(intStr, 16, 64)
+		if err != nil {
+			yylex.Error(fmt.Sprintf("invalid int literal %s: %v", $1.Literal, err))
+		}
 		$$ = &ast.IntLiteral{
 			Token: $1.Literal,
 			Value: n,
@@ -403,7 +409,10 @@ intLiteral
 		lit := strings.Replace($1.Literal, "_", "", -1)
 		// remove prefix "0o"
 		intStr := lit[2:]
-		n, _ := strconv.ParseInt(intStr, 8, 64)
+		n, err := strconv.ParseInt(intStr, 8, 64)
+		if err != nil {
+			yylex.Error(fmt.Sprintf("invalid int literal %s: %v", $1.Literal, err))
+		}
 		$$ = &ast.IntLiteral{
 			Token: $1.Literal,
 			Value: n,
@@ -416,7 +425,10 @@ intLiteral
 		lit := strings.Replace($1.Literal, "_", "", -1)
 		// remove prefix "0b"
 		intStr := lit[2:]
-		n, _ := strconv.ParseInt(intStr, 2, 64)
+		n, err := strconv.ParseInt(intStr, 2, 64)
+		if err != nil {
+			yylex.Error(fmt.Sprintf("invalid int literal %s: %v", $1.Literal, err))
+		}
 		$$ = &ast.IntLiteral{
 			Token: $1.Literal,
 			Value: n,
@@ -445,7 +457,10 @@ floatLiteral
 	{
 		// remove separator "_"s
 		floatStr := strings.Replace($1.Literal, "_", "", -1)
-		n, _ := strconv.ParseFloat(floatStr, 64)
+		n, err := strconv.ParseFloat(floatStr, 64)
+		if err != nil {
+			yylex.Error(fmt.Sprintf("invalid float literal %s: %v", $1.Literal, err))
+		}
 		$$ = &ast.FloatLiteral{
 			Token: $1.Literal,
 			Value: n,
@@ -1144,7 +1159,10 @@ strLiteral
 	{
 		// unquote escape sequences here
 		// NOTE: backquotes are unwraped in Unquote
-		unquoted, _ := strconv.Unquote($1.Literal)
+		unquoted, err := strconv.Unquote($1.Literal)
+		if err != nil {
+			yylex.Error(fmt.Sprintf("invalid str literal %s: %v", $1.Literal, err))
+		}
 		$$ = &ast.StrLiteral{
 			Token: $1.Literal,
 			Value: unquoted,
@@ -1246,7 +1264,10 @@ embeddedStr
 	{
 		// unquote escape sequences here
 		// NOTE: doublequotes are unwraped in Unquote
-		unquoted, _ := strconv.Unquote("\""+$2.Literal[1:])
+		unquoted, err := strconv.Unquote("\""+$2.Literal[1:])
+		if err != nil {
+			yylex.Error(fmt.Sprintf("invalid str literal %s: %v", $2.Literal, err))
+		}
 		$$ = &ast.EmbeddedStr{
 			Token: $1.Token,
 			Former: $1,
@@ -1260,7 +1281,10 @@ formerStrPiece
 	{
 		// unquote escape sequences here
 		// NOTE: doublequotes are unwraped in Unquote
-		unquoted, _ := strconv.Unquote("\""+$2.Literal[1:len($2.Literal)-2]+"\"")
+		unquoted, err := strconv.Unquote("\""+$2.Literal[1:len($2.Literal)-2]+"\"")
+		if err != nil {
+			yylex.Error(fmt.Sprintf("invalid str literal %s: %v", $2.Literal, err))
+		}
 		$$ = &ast.FormerStrPiece{
 			Token: $1.Token,
 			Former: $1,
@@ -1272,7 +1296,10 @@ formerStrPiece
 	{
 		// unquote escape sequences here
 		// NOTE: doublequotes are unwraped in Unquote
-		unquoted, _ := strconv.Unquote($1.Literal[:len($1.Literal)-2]+"\"")
+		unquoted, err := strconv.Unquote($1.Literal[:len($1.Literal)-2]+"\"")
+		if err != nil {
+			yylex.Error(fmt.Sprintf("invalid str literal %s: %v", $1.Literal, err))
+		}
 		$$ = &ast.FormerStrPiece{
 			Token: $1.Literal,
 			Former: nil,
